@@ -158,7 +158,7 @@ class Unit:
             elif kw == 'mustfail':
                 self._pending_mustfail = True
                 i += 1
-            elif kw in ('fn', 'item', 'implhdr', 'arm', 'guard', 'slice', 'macroarm', 'sig', 'callslice', 'quote', 'flaguse'):
+            elif kw in ('fn', 'item', 'implhdr', 'arm', 'guard', 'slice', 'macroarm', 'sig', 'callslice', 'quote', 'flaguse', 'skipguard'):
                 # collect block up to //@end (implhdr/guard are one-liners without block)
                 block = []
                 j = i + 1
@@ -891,6 +891,56 @@ class Unit:
             self.soft_undecided.append(dict(msg='%s: unclassified use of `%s` in %s at line(s) %s' % (file, flag, fn, bad), props=['C18']))
         self.rewrites.append(('frame: %d uses of %s in %s, all in listed guards/call arguments' % (n, flag, fn), '%s:%d' % (file, s.line_of(lo)), 1))
         self.emit('// flaguse %s in %s: %d classified occurrences' % (flag, fn, n), ('tmpl', base, tline))
+
+    def _d_skipguard(self, rest, block, base, tline):
+        """shape obligation on the event loop of preprocess_str (part of A-glue made checkable): the statement
+        `if skip { continue; }` stands at the top level of the loop body, after the match that toggles `skip` and
+        before every other match on the event, so that no arm is reached for a skipped event."""
+        parts = [p.strip() for p in rest.split('|')]
+        file, container, fn = parts[:3]
+        s, f = self._locate_fn(file, container, fn)
+        loops = [lp for lp in s.loops_in(f['open'] + 1, f['close']) if lp['kind'] == 'for' and re.search(r'\.event\(\)', s.masked[lp['kw']:lp['open']])]
+        label = 'C04.glue.skipped-events-reach-no-arm'
+        org = ('spec', base, tline, fn, label, ['C04'])
+        if len(loops) != 1:
+            self.soft_undecided.append(dict(msg='%s: event loop of %s not found' % (file, fn), props=['C04']))
+            return
+        lo, hi = loops[0]['open'] + 1, loops[0]['close']
+        # top-level statements of the loop body
+        stmts = []
+        i = lo
+        start = None
+        while i < hi:
+            c = s.masked[i]
+            if start is None and not c.isspace():
+                start = i
+            if c in '([{':
+                e = match_close(s.masked, i)
+                if c == '{' and start is not None:
+                    # a block-like statement (match / if / for) ends at its closing brace unless followed by else / ; / .
+                    j = e + 1
+                    while j < hi and s.masked[j].isspace():
+                        j += 1
+                    if not (s.masked[j:j + 4] == 'else' or s.masked[j] in ';.?'):
+                        stmts.append((start, e + 1))
+                        start = None
+                i = e + 1
+                continue
+            if c == ';' and start is not None:
+                stmts.append((start, i + 1))
+                start = None
+            i += 1
+        norm_ = [re.sub(r'\s+', '', s.masked[a:b]) for a, b in stmts]
+        guards = [k for k, t in enumerate(norm_) if t == 'ifskip{continue;}']
+        matches = [k for k, t in enumerate(norm_) if t.startswith('matchn')]
+        ok = (len(guards) == 1 and len(matches) >= 2 and matches[0] < guards[0] and all(m > guards[0] for m in matches[1:])
+              and all(k in guards or k in matches for k in range(len(norm_))))
+        toggles = len(matches) >= 1 and 'skip_nodes.contains' in norm_[matches[0]]
+        self.rewrites.append(('shape: event loop of %s has %d top-level statements; skip guard at %s, matches at %s' % (fn, len(norm_), guards, matches),
+                              '%s:%d' % (file, s.line_of(lo)), 1))
+        self.lines.append(Line('proof fn glue_skip_guard() {', ('tmpl', base, tline)))
+        self.lines.append(Line('    assert(%s);   // `if skip { continue; }` between the skip-toggling match and the arms' % ('true' if (ok and toggles) else 'false'), org, 'glue_skip_guard'))
+        self.lines.append(Line('}', ('tmpl', base, tline)))
 
     def _d_macroarm(self, rest, block, base, tline):
         mparts = [p.strip() for p in rest.split('|')]
